@@ -610,6 +610,8 @@ func (prop) Run(line string) core.Outcome {
 		return runCAS(f[1], f[2])
 	case len(f) == 2 && f[0] == "idrace":
 		return runIDRace(f[1])
+	case len(f) == 3 && f[0] == "peek":
+		return runPeek(f[1], f[2])
 	}
 	if len(f) >= 2 {
 		if o, ok := runStrOp(f); ok {
@@ -986,6 +988,79 @@ func runIDRace(ns string) core.Outcome {
 	if bad != "" || derr != nil || tagged != 1 {
 		o.Failures = append(o.Failures, core.Failure{Case: "idrace " + ns, Class: "id-race-corrupted-document",
 			What: fmt.Sprintf("after concurrent /id/ writes and inserts: %s; /config/apps/c12/a = %s", bad, g.body)})
+	}
+	return o
+}
+
+// runPeek: a rejected request is never visible, not even while it is being processed.
+// changeConfig mutates rawCfg in place, runs the new config and only then restores the old
+// tree; all of that is one write-locked critical section (Regions.lean: the states other
+// requests can see are the states between regions). One goroutine sends n writes that the
+// probe app rejects (and n that the indexer rejects); k readers GET /config/ all the time and
+// must never see a trace of them.
+func runPeek(ks, ns string) core.Outcome {
+	k, e1 := strconv.Atoi(ks)
+	n, e2 := strconv.Atoi(ns)
+	if e1 != nil || e2 != nil || k < 1 || k > 32 || n < 1 || n > 2000 || !allDigits(ks) || !allDigits(ns) {
+		return core.Outcome{Impl: "bad-op"}
+	}
+	reset()
+	line := "peek " + ks + " " + ns
+	o := core.Outcome{Impl: "peek", Tags: []string{"peek"}}
+	js := map[string]string{"Content-Type": "application/json"}
+	const doc = `{"apps":{"c12":{"a":[1,2,3],"b":{"c":true}}}}`
+	if r := do("POST", "/config/", []byte(doc), js); r.status != 200 {
+		o.Impl = "peek setup " + strconv.Itoa(r.status)
+		return o
+	}
+	want := get("/config/")
+	stop := make(chan struct{})
+	var wg sync.WaitGroup
+	var mu sync.Mutex
+	seen, reads := "", 0
+	for i := 0; i < k; i++ {
+		wg.Add(1)
+		go func() {
+			defer wg.Done()
+			for {
+				select {
+				case <-stop:
+					return
+				default:
+				}
+				g := get("/config/")
+				mu.Lock()
+				reads++
+				if g.status != 200 || !bytes.Equal(g.body, want.body) || g.etag != want.etag {
+					if seen == "" {
+						seen = fmt.Sprintf("status %d, ETag %s, body %s", g.status, g.etag, g.body)
+					}
+				}
+				mu.Unlock()
+			}
+		}()
+	}
+	notRejected := 0
+	for i := 0; i < n; i++ {
+		if r := do("PUT", "/config/apps/c12/reject", []byte("true"), js); r.status == 200 {
+			notRejected++
+		}
+		if r := do("POST", "/config/apps/c12/a", []byte(`{"@id":true}`), js); r.status == 200 {
+			notRejected++
+		}
+	}
+	close(stop)
+	wg.Wait()
+	if reads > 0 {
+		o.Tags = append(o.Tags, "peek:reads>0")
+	}
+	if notRejected > 0 {
+		o.Failures = append(o.Failures, core.Failure{Case: line, Class: "peek-write-not-rejected",
+			What: fmt.Sprintf("%d of the writes that must be rejected were answered 200", notRejected)})
+	}
+	if seen != "" {
+		o.Failures = append(o.Failures, core.Failure{Case: line, Class: "rejected-request-visible-to-concurrent-reader",
+			What: "while requests that end up rejected were being processed, a concurrent GET /config/ returned " + seen + " instead of " + string(want.body)})
 	}
 	return o
 }
